@@ -209,6 +209,9 @@ def check(prop, tier, seed):
     common.build_harness()
     # design level + replay set
     cases = mc_cases(3, "all", wd, run)
+    # character sweep: context, one character, context - every ASCII character, every Unicode White_Space character and its
+    # neighbours, in every lexical context (MC_Lexer, ATOMS = "sweep")
+    cases += mc_cases(3, "sweep", wd, run)
     if tier == "thorough":
         cases += mc_cases(5, "core", wd, run)
     srcs = [cps_to_str(c["src"]) for c in cases]
